@@ -44,6 +44,18 @@ def case(draw, tier):
         c["params"]["scheduler_algo"] = "verif-tape"      # the preemption workload under arbitrary custom decisions
     if c["params"]["scheduler_algo"] == "verif-tape":
         c["tape"] = draw(st.lists(st.integers(0, 2 ** 16), min_size=5, max_size=120))
+        if draw(st.integers(0, 3)) == 0:
+            # eager custom policy on identical pipelines: suspensions that start and end together, immediate re-assignment
+            tps = c["params"]["ticks_per_second"]
+            ram_pool = c["params"]["ram_gb_per_pool"]
+            c["eager_ram"] = round(ram_pool * draw(st.sampled_from([0.1, 0.2, 0.05])), 6)
+            c["params"]["multi_operator_containers"] = True
+            c["params"]["cpus_per_pool"] = draw(st.sampled_from([4, 2, 3, 8]))
+            n = draw(st.integers(3, 5))
+            ops = [{"parents": [i - 1] if i else [], "segs": [{"cpu": (draw(st.integers(0, 1)) + 0.5) / tps, "law": "const", "mem": 0.01, "read": 0.0}]}
+                   for i in range(n)]
+            c["arrivals"] = [[0, {"prio": 3, "ops": ops}] for _ in range(draw(st.integers(2, 4)))] + c["arrivals"][:2]
+            c["arrivals"].sort(key=lambda a: a[0])
     return c
 
 
@@ -59,7 +71,7 @@ def run_case(spec):
     tape = spec["params"]["scheduler_algo"] == "verif-tape"
     if tape:
         tape_sched.ensure_registered()
-        tape_sched.set_tape(spec["tape"])
+        tape_sched.set_tape(spec["tape"], spec.get("eager_ram"))
     rec, params = run_sim(spec)
     common_labels(out, spec, rec)
     out.label("sim")
